@@ -826,6 +826,37 @@ class DataOps:
             sem['cols'] = [c for c in sem['cols'] if c[0] in keep]
         self._finish('df_roundtrip', [(res, sem)], [src.sid], order=('multiset', 'multiset', 'seq'), sig=(src.op, o['flag']))
 
+    def op_to_df_columns(self, o):
+        """to_df alone: one data column per channel, labelled by the chosen channel descriptor (labels may repeat) and holding
+        that channel's measurements, whatever from_df could later make of it"""
+        src = self.pick(o, kinds=('dataset',))
+        if src is None:
+            return False
+        cds = sorted(k for k, v in src.obj.channel_descriptors.items() if _scalar_valued(v))
+        if not cds:
+            return False
+        cd = cds[o['a'][0] % len(cds)]
+        if any(np.asarray(v, dtype=object).ndim > 1 for v in src.obj.obs_descriptors.values()):
+            return False
+        try:
+            df = src.obj.to_df(channel_descriptor=cd)
+        except Exception as e:
+            return self._raise('to_df', e)
+        labels = normlist(src.obj.channel_descriptors[cd])
+        n_obs_cols = len(src.obj.obs_descriptors) + len(src.obj.descriptors)
+        vals = df.values
+        ok = vals.shape[1] >= len(labels) and normlist(list(df.columns[:len(labels)])) == labels
+        if ok:
+            m = np.asarray(src.obj.measurements)
+            got = np.asarray(df.iloc[:, :len(labels)].values, dtype=float)
+            ok = got.shape == m.shape and np.array_equal(got, m.astype(float), equal_nan=True)
+        if not ok:
+            self.pool.report('C11', 'dataset_twin.df', 'to_df:columns',
+                             f'to_df(channel_descriptor={cd!r}): the first {len(labels)} columns {list(df.columns)[:len(labels) + 2]} '
+                             f'are not the {len(labels)} channels labelled {labels} with their measurements (frame shape {df.shape})')
+        self.pool.sweep('to_df', args=[src.sid])
+        self.ctx.behaviour('to_df_columns', cd, len(set(labels)) < len(labels))
+
     def op_average_by(self, o):
         from rsatoolbox.data.computations import average_dataset_by
         src = self.pick(o, kinds=('dataset',), sem_only=True)
